@@ -71,7 +71,7 @@ def required_reach(tier: str) -> dict[str, int]:
         "rule:4:incorrect-format": 500, "rule:5:session-change": 50, "rule:5:session-read": 5, "rule:5:tester-present": 5,
         "rule:6:ecu-reset": 5, "rule:6:request-seed": 5, "rule:6:send-key-ok": 1, "suppressed-positive": 10,
         "nrc.7f": 50, "nrc.7e": 10, "state.non-default-session": 100, "state.security-level-set": 1,
-        "#off:": 9, "switch-subsets": 10, "state-checks": 1000,
+        "#off:": 9, "switch-subsets": 10, "state-checks": 1000, "inactivity-pause": 10,
     }
 
 
@@ -82,6 +82,13 @@ async def drive(ctx: Any, d: vecu.Driver, requests: Any, tag: str, cfg: dict[str
     last_seed = None
     hist: list[bytes] = []
     for q in requests:
+        if isinstance(q, tuple):  # ("PAUSE", seconds): the tester falls silent; > 10 s of inactivity reset the ECU state
+            vecu.CLOCK.advance(q[1])
+            if q[1] > 10:
+                m.reset()
+                ctx.reach("inactivity-pause")
+            hist.append(b"\x00PAUSE")
+            continue
         hist.append(q)
         raw = d.is_raw(q)
         before = (m.S, m.sec)
@@ -134,6 +141,9 @@ def history(ctx: Any, d: vecu.Driver, n: int, restrict_dsc: bool) -> Any:
     assert m is not None
     last_seed: tuple[int, bytes] | None = None
     for _ in range(n):
+        if rng.random() < 0.01:
+            yield ("PAUSE", rng.choice([3.0, 30.0, 600.0]))
+            last_seed = None if m.last_sa is None else last_seed
         q = vecu.gen_request(rng, m, last_seed)
         if restrict_dsc and q[0] == 0x10 and len(q) >= 2 and (q[1] & 0x7F) not in (m.M.get(m.S, {}).get(0x10) or []):
             continue
@@ -246,6 +256,6 @@ def replay(ctx: Any, witness: dict[str, Any]) -> None:
         await d.setup()
         cfg = {"server_seed": witness["server_seed"], "rp": witness["rp"], "off": sorted(off)}
         # the stored history is a suffix; replay it from the default state (sufficient when the witness state is reachable from it)
-        await drive(ctx, d, [ux(h) for h in witness.get("history", [])], "replay", cfg)
+        await drive(ctx, d, [("PAUSE", 30.0) if ux(h) == b"\x00PAUSE" else ux(h) for h in witness.get("history", [])], "replay", cfg)
 
     asyncio.run(go())
